@@ -93,6 +93,10 @@ EXPLANATION += (
     ' Round 12: the rows chunked are all rows of the file (R-PROV/row-extent).'
 )
 
+EXPLANATION += (
+    ' Round 14: the reference file list and the cell tables are handed on as received by the front ends (R-FWD/handed-on-unchanged).'
+)
+
 RULE_TEXT = (
     "one obligation per key of each producer, per required read, per "
     "merge loop, per statistic, per use of the row index")
@@ -156,6 +160,7 @@ def check(ctx):
         consequence='the statistics are summed over other cells than the '
                     'files and the taxonomy name')
     ctx.floor('R-FWD/handed-on-unchanged', 2)
+    check_truncation_rows_through_file_table(ctx)
     from .C05 import sweep_generic_rules
     sweep_generic_rules(ctx, ('diff_exp.precompute',))
     # settings this property depends on are handed down every call
@@ -1348,3 +1353,54 @@ def check_row_extent_is_file_length(ctx, rule='R-PROV/row-extent'):
     if n == 0:
         raise AnalysisError('the chunking loop of the statistics stage was '
                             'not found')
+
+
+def check_truncation_rows_through_file_table(
+        ctx, rule='R-PROV/rows-through-file-table'):
+    """a statistics file says where each cluster's row is: its
+    `cluster_to_row` table.  When the file is collapsed to a coarser
+    taxonomy, the rows that are added up for a new leaf are looked up in
+    that table -- on every path the `old_leaf_to_row` handed to
+    _convert_to_new_leaves is read from 'cluster_to_row' of the input file,
+    never re-created from an ordering of the leaves (files written by a
+    previous collapse, or with a caller's row map, are not in name
+    order)."""
+    from ..rules.roles import _selection_atoms
+    fi = ctx.db.fn('diff_exp.truncate_precompute:'
+                   'truncate_precomputed_stats_file')
+    cfg = cfg_of(fi)
+    rd = rd_of(fi)
+    ex = Expander(fi)
+    n = 0
+    for node in cfg.nodes:
+        if node.id not in rd.live:
+            continue
+        for c in cfg.calls_in(node):
+            t = resolve_callee(ctx.db, fi, c)
+            if not isinstance(t, FunctionInfo):
+                continue
+            m, _ = bind_args(t, c)
+            for pname, a in m.items():
+                if a is None or not (pname.endswith('_to_row')
+                                     and pname.startswith(('old', 'src',
+                                                           'cluster'))):
+                    continue
+                n += 1
+                term = ex.expand(a, node.id)
+                ok = True
+                why = ''
+                for alt in term_alts(term):
+                    reads, _p = _selection_atoms(alt)
+                    if 'cluster_to_row' not in reads:
+                        ok = False
+                        why = fmt_term(alt)[:70]
+                ctx.touch(fi)
+                ctx.ob(rule, f'{fi.qual}:{t.name}.{pname}', fi.loc(c), ok,
+                       'rows of the input are found through its own '
+                       'cluster_to_row' if ok else
+                       f'`{pname}` can be {why}, which is not read from '
+                       'the input file\'s cluster_to_row: rows of a file '
+                       'whose clusters are not stored in that order are '
+                       'added to the wrong node')
+    ctx.floor(rule, 1)
+    return n
